@@ -66,7 +66,7 @@ func polyProj(f func() *geom.Bounds) map[string]any {
 }
 
 // bboxProj records the "bbox" member of the GeoJSON encoding of g with EncodeGeometryWithBBox (plus opts).
-func bboxProj(g geom.T, opts ...geojson.EncodeGeometryOption) map[string]any {
+func geoBBoxProj(g geom.T, opts ...geojson.EncodeGeometryOption) map[string]any {
 	out := map[string]any{"pan": "", "err": "", "has": false, "bb": []int{}}
 	ev, msg := call(func() {
 		data, err := geojson.Marshal(g, append([]geojson.EncodeGeometryOption{geojson.EncodeGeometryWithBBox()}, opts...)...)
@@ -334,10 +334,8 @@ func boundsHandler(raw json.RawMessage) map[string]any {
 		out["orig1"], out["clone1"] = proj(b), proj(cl)
 		y.Extend(leafGeom(c.M2.L, c.M2.Cs, 2))
 		out["orig2"], out["clone2"] = proj(b), proj(cl)
-		// Set on a fresh clone must not show through its original (bitwise snapshot of min / max)
-		setok := true
+		// Set / SetCoords on a fresh clone: the original is projected again afterwards (BoundsObs compares it with orig2)
 		if b.Layout() != geom.NoLayout {
-			before := fmt.Sprint(proj(b))
 			c2 := b.Clone()
 			args := make([]float64, 2*b.Layout().Stride())
 			for i := range args {
@@ -345,30 +343,32 @@ func boundsHandler(raw json.RawMessage) map[string]any {
 			}
 			c2.Set(args...)
 			c2.SetCoords(geom.Coord(args[:b.Layout().Stride()]), geom.Coord(args[b.Layout().Stride():]))
-			setok = before == fmt.Sprint(proj(b))
 		}
-		out["setok"] = setok
-		// Coord.Clone: equal, and writes to either are not visible through the other
-		co := geom.Coord{1, 2, 3, 4, 5}[:2+c.First]
+		out["orig3"] = proj(b)
+		// Coord.Clone on special bit patterns: the bits of original and clone at clone time, after a write to each of them,
+		// the lengths after an append to the clone, and the length of a cloned nil coordinate - no judgement here
+		bitsOf := func(c geom.Coord) []string {
+			o := make([]string, len(c))
+			for i, v := range c {
+				o[i] = fmt.Sprintf("%016x", math.Float64bits(v))
+			}
+			return o
+		}
+		co := geom.Coord{math.Copysign(0, -1), math.Float64frombits(0x7FF8000000000001), math.Inf(1), 5e-324, 1.5}[:2+c.First]
 		cc := co.Clone()
-		ok := len(cc) == len(co)
-		for i := range co {
-			ok = ok && math.Float64bits(cc[i]) == math.Float64bits(co[i])
-		}
+		out["co0"], out["cc0"] = bitsOf(co), bitsOf(cc)
 		cc[0] = 77
-		ok = ok && co[0] == 1
 		co[1] = 88
-		ok = ok && cc[1] == 2
+		out["co1"], out["cc1"] = bitsOf(co), bitsOf(cc)
 		cc = append(cc, 9)
-		ok = ok && len(co) == 2+c.First
+		out["colen"], out["cclen"] = len(co), len(cc)
 		var nilc geom.Coord
-		ok = ok && len(nilc.Clone()) == 0
-		out["coordok"] = ok
+		out["nilclonelen"] = len(nilc.Clone())
 	case "gc":
 		g := buildNode(c.T, 0)
 		out["b"] = boundsProj(func() *geom.Bounds { return g.Bounds() })
 		out["poly"] = polyProj(func() *geom.Bounds { return g.Bounds() })
-		out["bbox"] = bboxProj(buildNodeJSON(c.T, 0))
+		out["bbox"] = geoBBoxProj(buildNodeJSON(c.T, 0))
 	case "geo":
 		// one geometry of an explicit Go type (ty): its own Bounds(), the polygon of those bounds, the GeoJSON bbox
 		g := buildNode(c.T, c.Ty)
@@ -376,8 +376,8 @@ func boundsHandler(raw json.RawMessage) map[string]any {
 		out["b"] = boundsProj(func() *geom.Bounds { return g.Bounds() })
 		out["poly"] = polyProj(func() *geom.Bounds { return g.Bounds() })
 		gj := buildNodeJSON(c.T, c.Ty)
-		out["bbox"] = bboxProj(gj)
-		out["bbd"] = bboxProj(gj, geojson.EncodeGeometryWithMaxDecimalDigits(1))
+		out["bbox"] = geoBBoxProj(gj)
+		out["bbd"] = geoBBoxProj(gj, geojson.EncodeGeometryWithMaxDecimalDigits(1))
 	case "overlap":
 		out["pan"] = ""
 		out["ov"], out["vo"], out["e1"] = false, false, false
